@@ -387,7 +387,35 @@ def r_apply_on_append(ctx):
         else:
             ctx.violation('%s:membership-scan-mismatch' % h.qualname, h.loc(scan_loops[0].ast),
                           'the membership scan runs over `%s` but the stored entries are `%s`' % (unparse(scan_loops[0].ast.iter), unparse(add_loops[0].iter)), instance=inst)
-    ctx.expect_min(2)
+    # a node that replays its journal after a restart (or learns of the commit later) applies membership entries again
+    # at apply time; the mutation is idempotent and must not depend on anything but the entry being a membership command
+    d = R.dispatcher
+    dex = U.explorer(ctx, d)
+    dcfg = dex.cfg
+    mcalls = [U.node_containing(dcfg, c).id for c in P.calls_in(d) if mut in P.resolve_call(d, c).targets]
+    parses = [n for n in dcfg.nodes if n.kind == 'stmt' and isinstance(n.ast, ast.Assign) and isinstance(n.ast.value, ast.Call)
+              and any('parse' in t.name.lower() or 'A:' + R.voters not in P.reads(t) and len(t.params) == 2 and any(
+                  isinstance(x, ast.Constant) and x.value in ('add', 'rem') for x in ast.walk(t.node)) for t in P.resolve_call(d, n.ast.value).targets)]
+    inst = 'the dispatcher re-applies every membership command it executes'
+    ctx.tick()
+    if not mcalls:
+        ctx.violation('%s:membership-not-applied-at-apply-time' % d.qualname, d.loc(), 'the dispatcher never calls the membership mutation: a node that replays its journal after a '
+                      'restart keeps the member set of its start-up configuration', instance=inst)
+    elif parses and isinstance(parses[0].ast.targets[0], ast.Name):
+        var = parses[0].ast.targets[0].id
+        notnone = ('none', dex.tb.term(ast.Name(id=var, ctx=ast.Load())), False)
+        succ = [dd for dd, l in parses[0].succ if not (isinstance(l, tuple) and l[0] == 'exc')]
+        r4 = dex.run(start=succ[0], init=frozenset([notnone]), avoid=mcalls, follow_exc=False) if succ else None
+        if r4 is not None and r4.reached(dcfg.exit.id):
+            fs4 = r4.facts_at(dcfg.exit.id)[0]
+            ctx.violation('%s:membership-reapplication-conditional' % d.qualname, d.loc(parses[0].ast),
+                          'a membership command can be executed by the dispatcher without calling the membership mutation (%s): after a restart from the journal, or when the entry '
+                          'is committed late, the node keeps a member set that differs from the one its log defines' % r4.path_str(dcfg.exit.id, fs4), instance=inst)
+        else:
+            ctx.ok(inst, d.loc(parses[0].ast), 'with a parsed membership request the dispatcher cannot return without calling %s' % mut.name)
+    else:
+        ctx.unproven(inst, d.loc(), 'membership parse in the dispatcher not recognised')
+    ctx.expect_min(3)
 
 
 @rule('R-removed-excluded', 'removing a voter discards it from the voter set, forgets its nextIndex/matchIndex and drops '
